@@ -392,7 +392,8 @@ class SafeLearner(Learner):
         #this logic should guarantee that we can differentiate prediction formats
         #it allows us to "is" checks to see if a returned value "is" one of the actions
         if self._prev_actions != actions:
-            self._prev_actions = actions
+            #remember a copy, the caller may change its own list in place before the next call
+            self._prev_actions = list(actions) if actions.__class__ is list else actions
             all_safe = 0 not in actions and 1 not in actions
             make_safe = lambda a: float(a) if a in [0,1] else a
             self._safe_actions = actions if all_safe else [ make_safe(a) for a in actions]
